@@ -12,6 +12,7 @@ import (
 	"encoding/json"
 	"fmt"
 	"os"
+	"regexp"
 	"strings"
 
 	"github.com/benhoyt/goawk/interp"
@@ -79,7 +80,17 @@ func runC11(c *vh.Ctx) {
 		"(Execute / ExecuteContext with background, live and already-cancelled contexts; own operand list, stdin and Config.Vars each; ResetVars " +
 		"before an execution or every readable variable pinned by Vars); every execution is compared with the same execution alone on a fresh " +
 		"interpreter, with the flat specification / trace clauses and with the Lean machine from its initial state; non-trivial = at least two " +
-		"of its executions are non-trivial; distribution hist:previous-execution-ended:<how>|left-open:<what>")
+		"of its executions are non-trivial; distribution hist:previous-execution-ended:<how>|left-open:<what>. " +
+		"shape = a program shape (each subset of BEGIN [with 0-3 getlines, each observed] / no rule | 1-2 idle rules `{ }`, `1 { }`, never-true pattern, " +
+		"empty-action or never-opening range, bare pattern | the tracing rule / END [observing FILENAME NR FNR NF $0 and every field, sometimes reading on or " +
+		"rebuilding $0] — also BEGIN-only and functions-only) over an operand list of 0-3 inputs (raw files, -, empty, missing) with var=value operands " +
+		"for FS RS INPUTMODE OFS NF FILENAME NR FNR v0 before, between and AFTER the inputs, against the flat reference evaluator; non-trivial = a block " +
+		"observed the bookkeeping after at least one record was taken; distribution sp:shape:<blocks>, sp:idle-rule:<kind>, sp:operand-after-last-input:<var>. " +
+		"resume = 2-4 inputs (files, stdin, empty, missing, assignments between) x the way the main loop is left (exit in BEGIN after 0-4 getlines, exit in a " +
+		"rule at record 1-6 possibly inside a function, nextfile possibly on the last file, next, missing operand, end of input) x END performing 1-5 " +
+		"un-redirected getline / getline var, each observed (sometimes BEGIN too), against the flat reference evaluator incl. the exit status; distribution " +
+		"sp:main-loop-left-by:<how>. shape-rl / resume-rl = the same two families in the rule language (single-byte FS): flat specification or dynamic + " +
+		"position clauses, and the Lean machine event by event")
 
 	// the shared pool of real files, in a scratch directory that becomes the working directory
 	dir, err := os.MkdirTemp("", "c11-")
@@ -177,6 +188,12 @@ func runC11(c *vh.Ctx) {
 		}
 		for i := 0; i < c.N(1200, 15000); i++ {
 			cases = append(cases, g.resumeCase(histRaw))
+		}
+		for i := 0; i < c.N(600, 8000); i++ {
+			cases = append(cases, g.shapeRLCase())
+		}
+		for i := 0; i < c.N(600, 8000); i++ {
+			cases = append(cases, g.resumeRLCase())
 		}
 	}
 	for _, cs := range cases {
@@ -289,11 +306,14 @@ func dropStatus(a string) string {
 	return a
 }
 
+// reSpTrace: a `T<tag> FILENAME NR FNR NF […` line of the special / shape / resume programs; group 1 = NR
+var reSpTrace = regexp.MustCompile(`^T\d+ \S* (-?\d+) -?\d+ \d+ \[`)
+
 func nontrivial(cs *Case, r result) bool {
 	if cs.Sp != nil {
-		if cs.Sp.Fam != "" { // a record was read and BEGIN / END / a rule observed the bookkeeping afterwards
+		if cs.Sp.Fam != "" { // a block observed the bookkeeping after at least one record was taken
 			for _, l := range strings.Split(r.res.Out, "\n") {
-				if f := strings.Fields(l); len(f) > 3 && strings.HasPrefix(l, "T") && f[len(f)-1] != "" && !strings.Contains(l, " 0 0 0 [] ") {
+				if m := reSpTrace.FindStringSubmatch(l); m != nil && m[1] != "0" {
 					return true
 				}
 			}
